@@ -87,6 +87,12 @@ def discover_cache(ctx):
             if par is not None and ap(v) == par:
                 comp[role] = s_.path
                 sts[role].append(s_)
+        if isinstance(v, ast.Tuple) and pars["ack"] in [ap(e) for e in v.elts] \
+                and all(isinstance(e, ast.Name) and e.id in cf.params[1:] for e in v.elts):
+            # the key is a tuple of parameters (ack plus what identifies the queue)
+            comp["ack"] = s_.path
+            comp["key_roles"] = ["ack" if ap(e) == pars["ack"] else f"#{cf.params.index(e.id)}" for e in v.elts]
+            sts["ack"].append(s_)
         if isinstance(v, ast.Call):
             ci = repo.resolve_class(ap(v.func) or "", cf.fi.module)
             fields = [st.target.id for st in ci.node.body if isinstance(st, ast.AnnAssign) and isinstance(st.target, ast.Name)] \
@@ -576,6 +582,20 @@ def r1_llsd_binding(ctx):
                f"`{head}` is bound to {target!r} in {rel}: responses carrying injected events with hippolyzer "
                f"value types cannot be formatted by another llsd implementation, the rewrite is aborted")
     ctx.floor("C17.R1", "llsd receivers in the EQ handlers", n, 1)
+    # the event decoder unpacks only what arrived as <binary> (other simulators write plain integers / strings)
+    ds = repo.fn("LLSDMessageSerializer.deserialize")
+    ups = [c for c in calls(ds.node) if call_attr(c) == "unpack" and c.args]
+    ctx.floor("C17.R1", "unpack calls in LLSDMessageSerializer.deserialize", len(ups), 1)
+    from ..core import conditions as _conditions
+    for c in ups:
+        v = ap(c.args[0])
+        guarded = any(isinstance(x, ast.Call) and isinstance(x.func, ast.Name) and x.func.id == "isinstance" and x.args
+                      and ap(x.args[0]) == v for cond in _conditions(c, ds.node) for x in ast.walk(cond.test)) \
+            or guarded_catch_all_(c, ds.node)
+        ctx.ob("C17.R1", "LLSDMessageSerializer.deserialize unpacks only values that arrived as binary", guarded, ctx.w(ds, c),
+               f"{norm(c)} runs for every packed-type variable whatever its LLSD form: an event that carries such a value as "
+               f"a plain integer / string (OpenSimulator's TeleportFinish) raises, none of the event handling runs and the "
+               f"announced region is never registered")
     # the rewrite relies on a failed parse raising (the handler's catch-all then passes the body through untouched)
     px = repo.fn("parse_xml", "hippolyzer/lib/base/llsd.py")
     swallow = [h for t in walk(px.node) if isinstance(t, ast.Try) for h in t.handlers
@@ -831,14 +851,43 @@ def r3(ctx, m: RespModel):
             continue
         pay_rets += 1
         fs = facts(r, gf.tree)
+        def key_side(x):
+            """The lookup key: the ack parameter, or a tuple laid out like the stored key tuple."""
+            roles = comp.get("key_roles")
+            if roles is None:
+                return expand_path(gf.tree, x) == gpar
+            x = origin(gf.tree, x)
+            return isinstance(x, ast.Tuple) and len(x.elts) == len(roles) and all(
+                isinstance(e_, ast.Name) and e_.id in gf.params[1:] for e_ in x.elts) and \
+                [("ack" if ap(e_) == gpar else "q") for e_ in x.elts] == [("ack" if r_ == "ack" else "q") for r_ in roles]
         eq = [1 for e, pol in fs if isinstance(e, ast.Compare) and len(e.ops) == 1 and (
-            (isinstance(e.ops[0], ast.Eq) and pol) or (isinstance(e.ops[0], ast.NotEq) and not pol)) and
-            {expand_path(gf.tree, e.left), expand_path(gf.tree, e.comparators[0])} == {comp.get("ack"), gpar}]
+            (isinstance(e.ops[0], ast.Eq) and pol) or (isinstance(e.ops[0], ast.NotEq) and not pol)) and (
+            (expand_path(gf.tree, e.left) == comp.get("ack") and key_side(e.comparators[0])) or
+            (expand_path(gf.tree, e.comparators[0]) == comp.get("ack") and key_side(e.left)))]
         ctx.ob("C17.R3", "get_cached_poll_response serves the cache exactly when the request's ack equals the cached ack",
                len(eq) == 1 and len(fs) == 1, gf.w(r),
                f"guard {[(norm(e), p) for e, p in fs]}: a repeated poll with the same ack (including the first, "
                f"undef ack) must be answered from the cache")
     ctx.ob("C17.R3", "get_cached_poll_response can return the cached payload", pay_rets >= 1, gf.fi.where)
+    # acks are only meaningful within one queue (every queue starts with an undef ack): the cache is keyed by the queue too
+    roles = comp.get("key_roles") or []
+    cfi_ = repo.fn(f"{EQM}.cache_last_poll_response")
+    gfi_ = repo.fn(f"{EQM}.get_cached_poll_response")
+    qpar_c = [cf.params[int(r_[1:])] for r_ in roles if r_ != "ack"]
+    supplied = bool(qpar_c)
+    for c in m.caches:
+        supplied = supplied and all(q in bind_call(cfi_, c) for q in qpar_c)
+    rq_ = Fn(ctx, "MITMProxyEventManager._handle_request")
+    gcalls = find_calls(rq_.tree, "get_cached_poll_response", into_defs=False)
+    qpar_g = [p_ for p_ in gf.params[1:] if p_ != gpar]
+    for c in gcalls:
+        supplied = supplied and bool(qpar_g) and all(q in bind_call(gfi_, c) for q in qpar_g)
+    same_q = supplied and {norm(bind_call(cfi_, c)[q]).split(".")[-1] for c in m.caches for q in qpar_c} == \
+        {norm(bind_call(gfi_, c)[q]).split(".")[-1] for c in gcalls for q in qpar_g}
+    ctx.ob("C17.R3", "the replay cache is keyed by the event queue as well as by the ack", bool(supplied and same_q), cfi_.where,
+           "the last response is remembered under the request's ack alone although one manager serves every EventQueueGet "
+           "URL of its region and every queue starts with an undef ack: the first poll of a new queue is answered with the "
+           "old queue's last response (events delivered twice, the poll never reaches the simulator)")
 
     # teardown: EventQueueManager.clear resets queue and cache; ProxiedRegion.mark_dead always reaches it
     Q = discover_queue_field(ctx)
@@ -943,6 +992,28 @@ def r4(ctx):
                eq.describe(wit))
         ctx.ob("C17.R4", "_handle_eq_event: register_region not in a loop",
                not any(isinstance(x, (ast.For, ast.While)) for x in ancestors(c)), eq.w(c))
+    # D121 (recorded): events the proxy injects are merged without being offered to the registration
+    resp = Fn(ctx, "MITMProxyEventManager._handle_response")
+    takes = find_calls(resp.tree, "take_injected_events", into_defs=False)
+    reg_names = {"register_region", "_handle_eq_event"} | {
+        g.name for g in repo.cls("MITMProxyEventManager", HEM).methods.values()
+        if any(call_attr(x) == "register_region" for x in calls(g.node))}
+    offered = False
+    for t in takes:
+        o = enclosing_stmt(t)
+        names = set()
+        if isinstance(o, ast.Assign) and isinstance(o.targets[0], ast.Name):
+            names.add(o.targets[0].id)
+        for lp in [x for x in walk(resp.tree) if isinstance(x, ast.For)]:
+            src_ = origin(resp.tree, lp.iter)
+            if src_ is t or (isinstance(lp.iter, ast.Name) and lp.iter.id in names) or any(y is t for y in ast.walk(lp.iter)):
+                if any(call_attr(x) in reg_names and any(ap(a_) == ap(lp.target) for a_ in list(x.args) + [k.value for k in x.keywords])
+                       for x in calls(lp)):
+                    offered = True
+    ctx.ob("C17.R4", "MITMProxyEventManager._handle_response: injected events reach the region registration", offered,
+           resp.fi.where, "events taken from the injection queue are merged into the response without being offered to the "
+                          "region registration: a region-announcing event the proxy itself injects reaches the viewer while "
+                          "the proxy never registers the region")
     _r4_template_agreement(ctx, eq)
     # BaseClientSession.register_region (the search loop may live in a helper the function calls)
     f = Fn(ctx, "BaseClientSession.register_region")
